@@ -207,3 +207,18 @@ _m("C06",
    "newline fuses, collision resistance of SHA-256; field agreement of returned entries is decided under C11.",
    "MIR gate-cut reachability (trust gate) + loop-exit classification + identity value flow",
    "exhaustive static analysis of the readers' validation structure in every configuration (necessary conditions)")
+
+_m("C10",
+   "(a) The listing walks {cache}/index-v<N> — the same versioned directory BUCKET_PATH writes into — and reads every bucket "
+   "through the same validated BUCKET_READER role that lookups use (its validation is decided under C06). (b) The per-bucket "
+   "pipeline, recovered as a symbolic term, is reader → [pre-filter] → reverse → collect into a HashSet of records (first seen = "
+   "newest wins) → filter_map(emit) → collect: the recognised last-wins idiom; dropping the reversal is reported as oldest-wins. "
+   "(c) The hand-written PartialEq::eq and Hash::hash of the record type read the field `key` and nothing else. (d) The decision "
+   "rows of the pre-filter (tombstone → keep; live → keep iff its integrity parses) and of the emit closure (tombstone → drop; "
+   "parses → Metadata built field-by-field from this record; unparsable → drop, never a panic) equal their oracles, so tombstones "
+   "are removed only after de-duplication and unparsable records are treated as by lookup. Another algorithm is reported as "
+   "UNRECOGNISED-IDIOM (stated residual risk).",
+   "Hash-set iteration order, behaviour on foreign records, equality of every listed field with the lookup's for concrete "
+   "histories (the field maps are decided under C11).",
+   "pipeline recovery from symbolic terms + decision-row extraction of the stage closures + item facts of the trait impls",
+   "exhaustive static analysis of the listing algorithm's shape in every configuration (necessary conditions)")
